@@ -41,6 +41,7 @@ static float mk_sample(mk_params *P,int ch,long i){
   case 1: return ((int)(mk_rand()&0xffff)-32768)/40000.f;
   case 2: return 0.f;
   case 3: return (i%997==(ch*31))?0.9f:0.f;
+  case 10: return ((i%9973==(ch*31+4000))?0.9f:0.f)+0.05f*sinf((float)i*0.031f+ch);   /* a steady tone with a click now and then: long blocks with isolated runs of short ones */
   default: return 2.0f*sinf((float)i*(0.05f+0.01f*ch))+((int)(mk_rand()&0xff)-128)/100.f;
   }
 }
